@@ -9,6 +9,7 @@ use crate::c20::minimise_ast;
 use crate::common::*;
 use crate::gen::{self, GenCfg, Node};
 use crate::rng::{derive, Fnv, Rng};
+use fancy_regex::internal::Insn;
 use fancy_regex::verif::{self, EndReason, LimitOverride, RunStats, SearchCall};
 use fancy_regex::{Regex, RegexBuilder};
 use serde_json::{json, Value};
@@ -16,7 +17,7 @@ use std::collections::HashSet;
 
 pub const PROP: &str = "C08";
 pub const KNOWN_KEY_KEEPOUT: &str = "keepout-in-lookbehind-moves-start-before-search-position";
-pub const KEEPOUT_WITNESSES: &[(&str, &str)] = &[(r"a|(?<=\Ka)b", "ab"), (r"\w(?<=\K\w)", "ab")];
+pub const KEEPOUT_WITNESSES: &[(&str, &str)] = &[(r"a|(?<=\Ka)b", "ab"), (r"\w(?<=\K\w)", "ab"), (r"(?<=\Kb)", "b")];
 
 #[derive(Clone, Debug, PartialEq, Eq)]
 pub enum Item {
@@ -40,6 +41,8 @@ pub struct Case {
     pub fault: Option<IterFault>,
     /// build through RegexBuilder::backtrack_limit(k) instead of Regex::new
     pub builder: Option<usize>,
+    /// also apply the position-independence oracle
+    pub shift: bool,
 }
 
 impl Case {
@@ -50,6 +53,7 @@ impl Case {
             "text": self.text,
             "fault": self.fault.as_ref().map(|f| json!([f.j, f.kind, f.val])),
             "builder": self.builder,
+            "shift": self.shift,
         })
     }
     pub fn from_json(v: &Value) -> Option<Case> {
@@ -65,12 +69,13 @@ impl Case {
                 _ => None,
             },
             builder: v["builder"].as_u64().map(|x| x as usize),
+            shift: v["shift"].as_bool().unwrap_or(false),
         })
     }
     /// the regex with `\\G` replaced by `(?!)`, when the pattern has a `\\G`
     pub fn build_nog(&self) -> Option<Regex> {
         let p = without_continue_g(&self.pattern)?;
-        Case { pattern: p, text: String::new(), fault: None, builder: self.builder }.build()
+        Case { pattern: p, text: String::new(), fault: None, builder: self.builder, shift: false }.build()
     }
     pub fn build(&self) -> Option<Regex> {
         match self.builder {
@@ -283,6 +288,130 @@ pub fn independent_items(re: &Regex, re_nog: &Regex, text: &str) -> Vec<Item> {
     items
 }
 
+/// Position independence of the search layer the iterator continues on. A search that continues
+/// from byte offset `pos` must find exactly what a search *from 0* finds for the pattern
+/// `\\A(?s:.{k,}?)\\K(?:P)` (k = number of characters before `pos`): skip at least k characters, as
+/// few as possible, then match P there, reporting P's span. Only searches from position 0 are
+/// trusted this way; the iterator's own continuing searches are not. Fault-free, patterns without
+/// `\\G` only (`\\G` is about the search position itself).
+pub fn shifted_check(re: &Regex, pattern: &str, text: &str, calls: &[SearchCall], st: &mut Stats) -> Option<Found> {
+    if pattern.contains("\\G") || !re.verif_is_fancy() {
+        return None;
+    }
+    let n_cap = 2 * re.captures_len();
+    let Some(own) = grab_program(re).and_then(|p| pattern_part(&p, None, n_cap)) else { return None };
+    let mut seen: Vec<usize> = Vec::new();
+    budget::install();
+    for c in calls {
+        let pos = c.pos;
+        if pos == 0 || pos > text.len() || !text.is_char_boundary(pos) || seen.contains(&pos) {
+            continue;
+        }
+        seen.push(pos);
+        let k = text[..pos].chars().count();
+        let q = format!("\\A(?s:.{{{},}}?)\\K(?:{})", k, pattern);
+        let Some(rq) = compile(&q) else { continue };
+        // Soundness guard: the shifted regex must run *the same instructions* for the pattern's own
+        // part as the regex under test does (which sub-expressions are delegated depends on the
+        // context a pattern is compiled in, and the two engines are not interchangeable for every
+        // pattern - that is C03's business, not this property's). Otherwise: not comparable.
+        let same_code = grab_program(&rq).and_then(|p| pattern_part(&p, Some(own.len()), n_cap)).map_or(false, |part| part == own);
+        if !same_code {
+            st.shifted_not_comparable += 1;
+            continue;
+        }
+        budget::arm(budget::DEFAULT_INSNS, u64::MAX);
+        let want = guarded(|| rq.find(text).map(|m| m.map(|m| (m.start(), m.end()))));
+        budget::arm(budget::DEFAULT_INSNS, u64::MAX);
+        let got = guarded(|| re.find_from_pos(text, pos).map(|m| m.map(|m| (m.start(), m.end()))));
+        budget::disarm();
+        st.shifted_searches += 1;
+        if let (Outcome::Ok(w), Outcome::Ok(g)) = (&want, &got) {
+            if w != g {
+                return Some(Found {
+                    class: "search-depends-on-start-position".into(),
+                    detail: format!(
+                        "find_from_pos({:?}, {}) returned {:?} ; the same search expressed from position 0 (/{}/, same VM code for the pattern's part) returns {:?}",
+                        text, pos, g, q, w
+                    ),
+                });
+            }
+        }
+    }
+    None
+}
+
+/// The VM program of a regex, read through the observer hook at the start of a throw-away search.
+fn grab_program(re: &Regex) -> Option<Vec<Insn>> {
+    struct Grab(std::rc::Rc<std::cell::RefCell<Option<Vec<Insn>>>>);
+    impl verif::Observer for Grab {
+        fn run_begin(&mut self, info: &verif::RunInfo<'_>) {
+            *self.0.borrow_mut() = Some(info.prog.to_vec());
+        }
+    }
+    let cell = std::rc::Rc::new(std::cell::RefCell::new(None));
+    let prev = verif::set_observer(Some(Box::new(Grab(cell.clone()))));
+    budget::install();
+    budget::arm(1_000_000, u64::MAX);
+    let _ = guarded(|| re.find_from_pos("", 0).map(|_| ()));
+    budget::disarm();
+    verif::set_observer(prev);
+    let p = cell.borrow_mut().take();
+    p
+}
+
+/// The instructions that belong to the pattern itself, position-independently rendered: everything
+/// between the `Save(0)` that starts the match and the final `Save(1)`, `End`. With `len` given
+/// (the shifted regex), the last `len` instructions before `Save(1)`, which must be preceded by the
+/// `Save(0)` of the inserted `\K`. Jump targets are made relative, internal slots are renamed in
+/// order of first appearance (capture slots keep their numbers).
+fn pattern_part(prog: &[Insn], len: Option<usize>, n_cap: usize) -> Option<Vec<String>> {
+    let n = prog.len();
+    if n < 3 || !matches!(prog[n - 1], Insn::End) || !matches!(prog[n - 2], Insn::Save(1)) {
+        return None;
+    }
+    let from = match len {
+        None => prog.iter().position(|i| matches!(i, Insn::Save(0)))? + 1,
+        Some(l) => {
+            let f = (n - 2).checked_sub(l)?;
+            if f == 0 || !matches!(prog[f - 1], Insn::Save(0)) {
+                return None;
+            }
+            f
+        }
+    };
+    let mut slots: Vec<usize> = Vec::new();
+    let mut out = Vec::new();
+    for pc in from..n - 2 {
+        let rel = |t: usize| t as isize - pc as isize;
+        let mut sl = |s: usize| -> String {
+            if s < n_cap {
+                format!("c{}", s)
+            } else {
+                let i = slots.iter().position(|x| *x == s).unwrap_or_else(|| {
+                    slots.push(s);
+                    slots.len() - 1
+                });
+                format!("i{}", i)
+            }
+        };
+        out.push(match &prog[pc] {
+            Insn::Split(x, y) => format!("Split({},{})", rel(*x), rel(*y)),
+            Insn::Jmp(t) => format!("Jmp({})", rel(*t)),
+            Insn::Save(s) => format!("Save({})", sl(*s)),
+            Insn::Save0(s) => format!("Save0({})", sl(*s)),
+            Insn::Restore(s) => format!("Restore({})", sl(*s)),
+            Insn::Backref(s) => format!("Backref({})", sl(*s)),
+            Insn::RepeatGr { lo, hi, next, repeat } => format!("RepeatGr({},{},{},{})", lo, hi, rel(*next), sl(*repeat)),
+            Insn::RepeatNg { lo, hi, next, repeat } => format!("RepeatNg({},{},{},{})", lo, hi, rel(*next), sl(*repeat)),
+            Insn::RepeatEpsilonGr { lo, next, repeat, check } => format!("RepeatEpsilonGr({},{},{},{})", lo, rel(*next), sl(*repeat), sl(*check)),
+            Insn::RepeatEpsilonNg { lo, next, repeat, check } => format!("RepeatEpsilonNg({},{},{},{})", lo, rel(*next), sl(*repeat), sl(*check)),
+            other => format!("{:?}", other),
+        });
+    }
+    Some(out)
+}
+
 /// Copy of the pattern with every `\\G` replaced by `(?!)`; None when the pattern has no `\\G`.
 /// (Workload patterns never contain an escaped backslash followed by `G`.)
 pub fn without_continue_g(pattern: &str) -> Option<String> {
@@ -367,6 +496,9 @@ pub struct Stats {
     pub interleaved: u64,
     pub budget_skipped: u64,
     pub independent_g_models: u64,
+    pub shifted_searches: u64,
+    pub shifted_not_comparable: u64,
+    pub keepout_overlaps_tolerated: u64,
     pub nontrivial: bool,
     pub digest: u64,
 }
@@ -412,6 +544,11 @@ pub struct Found {
 /// Check one (regex, text, fault): real history vs invariants vs model, and (under a fault) the
 /// narrow expectation against the fault-free history.
 pub fn check_one(re: &Regex, re_nog: Option<&Regex>, text: &str, fault: &Option<IterFault>, ff: Option<&History>, st: &mut Stats) -> Option<Found> {
+    check_one_shifted(re, re_nog, None, text, fault, ff, st)
+}
+
+/// `shift`: the pattern text, when the position-independence oracle is to be applied as well.
+pub fn check_one_shifted(re: &Regex, re_nog: Option<&Regex>, shift: Option<&str>, text: &str, fault: &Option<IterFault>, ff: Option<&History>, st: &mut Stats) -> Option<Found> {
     let real = real_history(re, text, fault);
     if let Some(Item::Panic(msg)) = real.items.last() {
         st.histories += 1;
@@ -451,6 +588,13 @@ pub fn check_one(re: &Regex, re_nog: Option<&Regex>, text: &str, fault: &Option<
             class: "search-calls-differ-from-model".into(),
             detail: format!("find_iter searched {:?} ; the statement's iteration searches {:?}", short_calls(&real.calls), short_calls(&model.calls)),
         });
+    }
+    if let (None, Some(p)) = (fault, shift) {
+        if !matches!(real.items.last(), Some(Item::Err(_))) {
+            if let Some(f) = shifted_check(re, p, text, &real.calls, st) {
+                return Some(f);
+            }
+        }
     }
     if let (None, Some(nog)) = (fault, re_nog) {
         if !matches!(real.items.last(), Some(Item::Err(_))) {
@@ -514,8 +658,9 @@ pub fn check_case(case: &Case, st: &mut Stats) -> Option<Found> {
     let re = case.build()?;
     let nog = case.build_nog();
     let ff = real_history(&re, &case.text, &None);
+    let shift = if case.shift && case.builder.is_none() { Some(case.pattern.as_str()) } else { None };
     if case.fault.is_none() {
-        return check_one(&re, nog.as_ref(), &case.text, &None, None, st);
+        return check_one_shifted(&re, nog.as_ref(), shift, &case.text, &None, None, st);
     }
     check_one(&re, nog.as_ref(), &case.text, &case.fault, Some(&ff), st)
 }
@@ -623,7 +768,7 @@ fn interleaved(re: &Regex, texts: &[String], order: &[usize]) -> Option<Found> {
 fn replay_interleaved(case: &Value) -> Option<(String, String)> {
     let pattern = case["pattern"].as_str()?;
     let builder = case["builder"].as_u64().map(|x| x as usize);
-    let c = Case { pattern: pattern.to_string(), text: String::new(), fault: None, builder };
+    let c = Case { pattern: pattern.to_string(), text: String::new(), fault: None, builder, shift: false };
     let re = c.build()?;
     let texts: Vec<String> = case["texts"].as_array()?.iter().map(|t| t.as_str().unwrap_or("").to_string()).collect();
     let order: Vec<usize> = case["order"].as_array()?.iter().map(|t| t.as_u64().unwrap_or(0) as usize).collect();
@@ -634,8 +779,11 @@ fn replay_interleaved(case: &Value) -> Option<(String, String)> {
 
 fn gen_cfg(rng: &mut Rng) -> GenCfg {
     let mut cfg = GenCfg::swarm(rng);
-    // known finding: \K inside a look-behind can move the match start before the search position
-    cfg.allow_keepout_in_look = false;
+    // known finding: \K inside a look-behind can move the match start before the search position.
+    // A quarter of the runs do generate such patterns; a history that then shows the finding's
+    // signature (an item that starts before / does not end after the previous one, for a pattern
+    // with \K inside a look-around) is counted and not reported; every other check still applies.
+    cfg.allow_keepout_in_look = rng.chance(1, 4);
     cfg.allow_cond_in_atomic = true;
     cfg.allow_continue_g = rng.chance(2, 3);
     cfg
@@ -647,22 +795,35 @@ struct JobOut {
     sample: Option<Value>,
 }
 
-fn job(seed: u64, i: u64) -> (JobOut, Option<Violation>) {
+/// Signature of the listed finding: for a pattern with \K inside a look-around, an item that
+/// starts before the previous item's end, or does not end after it - including the same item
+/// yielded again and again (the match ends where the search started, so the iterator never moves).
+fn is_keepout_signature(class: &str) -> bool {
+    class == "items-overlap" || class == "items-not-increasing" || class == "iterator-does-not-terminate"
+}
+
+fn job(seed: u64, i: u64, keepout_listed: bool) -> (JobOut, Option<Violation>) {
     let mut rng = Rng::new(derive(seed, i));
     let mut out = JobOut { st: Stats::default(), nontrivial_hashes: Vec::new(), sample: None };
     let cfg = gen_cfg(&mut rng);
     for k in 0..4 {
+        let mut keepout_in_look = false;
         let (pattern, ast) = if k == 0 && i % 2 == 0 {
             (gen::CORPUS[((i / 2) as usize) % gen::CORPUS.len()].to_string(), None)
         } else {
             let ast = gen::gen_pattern(&mut rng, &cfg);
             if ast.facts().keepout_in_look {
-                continue;
+                if !keepout_listed {
+                    continue;
+                }
+                keepout_in_look = true;
             }
             (ast.render(), Some(ast))
         };
         let builder = if rng.chance(1, 10) { Some(*rng.pick(&[0usize, 1, 2, 3, 5, 10])) } else { None };
-        let mut case = Case { pattern: pattern.clone(), text: String::new(), fault: None, builder };
+        // the position-independence oracle costs a regex compilation per search: sampled
+        let shift = builder.is_none() && (keepout_in_look || rng.chance(1, 12));
+        let mut case = Case { pattern: pattern.clone(), text: String::new(), fault: None, builder, shift };
         let Some(re) = case.build() else { continue };
         let nog = case.build_nog();
         if builder.is_some() {
@@ -673,7 +834,13 @@ fn job(seed: u64, i: u64) -> (JobOut, Option<Violation>) {
             case.fault = None;
             // fault-free
             let ff = real_history(&re, &case.text, &None);
-            let mut found = check_one(&re, nog.as_ref(), &case.text, &None, None, &mut out.st);
+            let mut found = check_one_shifted(&re, nog.as_ref(), if shift { Some(pattern.as_str()) } else { None }, &case.text, &None, None, &mut out.st);
+            if keepout_in_look && found.as_ref().map_or(false, |f| is_keepout_signature(&f.class)) {
+                // the listed finding, recognised by its signature: count it, nothing more to learn
+                // from this history
+                out.st.keepout_overlaps_tolerated += 1;
+                continue;
+            }
             let nontrivial_ff = ff.items.len() >= 2 || ff.items.iter().any(|it| matches!(it, Item::Match(s, e) if s == e));
             let mut fired_any = false;
             // faults: search #j in {first, last, random}, k/d around that search's own thresholds
@@ -696,6 +863,10 @@ fn job(seed: u64, i: u64) -> (JobOut, Option<Violation>) {
                         case.fault = Some(IterFault { j: j as u64, kind: kind.to_string(), val });
                         let before = out.st.faults_fired;
                         found = check_one(&re, nog.as_ref(), &case.text, &case.fault, Some(&ff), &mut out.st);
+                        if keepout_in_look && found.as_ref().map_or(false, |f| is_keepout_signature(&f.class)) {
+                            out.st.keepout_overlaps_tolerated += 1;
+                            found = None;
+                        }
                         if out.st.faults_fired > before {
                             fired_any = true;
                         }
@@ -725,8 +896,9 @@ fn job(seed: u64, i: u64) -> (JobOut, Option<Violation>) {
                 return (out, Some(Violation::new(PROP, &f.class, detail, m.to_json())));
             }
         }
-        // interleaved stepping of 2..3 iterators over this regex
-        if rng.chance(1, 3) {
+        // interleaved stepping of 2..3 iterators over this regex (not for patterns that can show
+        // the listed \K-in-look-around finding: their iterators need not even terminate)
+        if !keepout_in_look && rng.chance(1, 3) {
             let n = rng.range(2, 3);
             let texts: Vec<String> = (0..n).map(|_| gen::gen_text(&mut rng, 6)).collect();
             let steps = rng.range(4, 24);
@@ -759,12 +931,15 @@ fn add(a: &mut Stats, b: &Stats) {
     a.interleaved += b.interleaved;
     a.budget_skipped += b.budget_skipped;
     a.independent_g_models += b.independent_g_models;
+    a.shifted_searches += b.shifted_searches;
+    a.shifted_not_comparable += b.shifted_not_comparable;
+    a.keepout_overlaps_tolerated += b.keepout_overlaps_tolerated;
     a.digest ^= b.digest.rotate_left(7);
 }
 
 pub fn digest(seed: u64, n: u64, workers: usize) -> Vec<u64> {
     let (res, _) = run_batch(n, workers, move |i| {
-        let (o, v) = job(seed, i);
+        let (o, v) = job(seed, i, true);
         let mut d = Fnv(o.st.digest);
         d.u64(o.st.histories);
         d.u64(v.is_some() as u64);
@@ -777,12 +952,10 @@ pub fn digest(seed: u64, n: u64, workers: usize) -> Vec<u64> {
 /// that is not listed.
 fn known_witnesses(known: &[KnownFinding], lines: &mut Vec<String>) -> Result<(), Violation> {
     for (p, t) in KEEPOUT_WITNESSES {
-        let case = Case { pattern: p.to_string(), text: t.to_string(), fault: None, builder: None };
+        let case = Case { pattern: p.to_string(), text: t.to_string(), fault: None, builder: None, shift: false };
         let mut st = Stats::default();
         if let Some(f) = check_case(&case, &mut st) {
-            let listed = (f.class == "items-overlap" || f.class == "items-not-increasing")
-                .then(|| is_known(known, PROP, KNOWN_KEY_KEEPOUT))
-                .flatten();
+            let listed = is_keepout_signature(&f.class).then(|| is_known(known, PROP, KNOWN_KEY_KEEPOUT)).flatten();
             match listed {
                 Some(k) => lines.push(format!("KNOWN-FINDING: property={} {} [witness /{}/ on {:?}: {}]", PROP, k.what, p, t, f.detail)),
                 None => return Err(Violation::new(PROP, &f.class, f.detail, case.to_json())),
@@ -807,10 +980,11 @@ pub fn run(opts: &Opts) -> i32 {
     for l in &known_lines {
         println!("{}", l);
     }
+    let keepout_listed = is_known(&known, PROP, KNOWN_KEY_KEEPOUT).is_some();
     let mut st = Stats::default();
     let mut nt = Distinct::new();
     let mut samples = Vec::new();
-    let (jobs_done, viol) = run_batch_chunked(n, opts.workers, move |i| job(seed, i), |_, r| {
+    let (jobs_done, viol) = run_batch_chunked(n, opts.workers, move |i| job(seed, i, keepout_listed), |_, r| {
         add(&mut st, &r.st);
         nt.extend(r.nontrivial_hashes.iter());
         if samples.len() < 4 {
@@ -858,6 +1032,9 @@ pub fn run(opts: &Opts) -> i32 {
             "interleaved_iterator_scenarios": st.interleaved,
             "histories_skipped_over_instruction_budget": st.budget_skipped,
             "histories_also_checked_against_flag_independent_G_model": st.independent_g_models,
+            "continuing_searches_cross_checked_against_a_search_from_position_0": st.shifted_searches,
+            "continuing_searches_not_comparable_that_way_different_vm_code": st.shifted_not_comparable,
+            "generated_histories_showing_the_listed_keepout_overlap_signature": st.keepout_overlaps_tolerated,
         }));
         extra.insert("runs_per_hour".into(), json!(((st.histories as f64) / wall.max(1e-9) * 3600.0) as u64));
         extra.insert("seeds".into(), json!(format!("derive({}, 0..{})", seed, jobs_done)));
@@ -879,7 +1056,8 @@ pub fn run(opts: &Opts) -> i32 {
             extra,
             assumptions: vec![
                 "the answer of each single search is trusted (C01/C02 not decided here)".into(),
-                "\\K inside look-arounds is kept out of generated workloads (known finding, fixed witnesses)".into(),
+                "a generated history that shows the listed \\K-in-look-behind signature (item starting before / not ending after the previous one, pattern with \\K inside a look-around) is counted, not reported".into(),
+                "searches from position 0 are trusted; continuing searches are cross-checked against them on a sample (position-independence oracle)".into(),
             ],
             wall_s: wall,
             violations,
